@@ -14,9 +14,11 @@ from lib import tlc, build, tracev
 from lib.ctx import MachineryError
 from harness.mt import mtlib
 
-QUICK_MC = ["err1", "badhdr2", "direct", "direrr", "trunc2", "memtight", "live", "live_trunc", "cat2_badpad", "cat1_trailpad"]
+QUICK_MC = ["err1", "badhdr2", "direct", "direrr", "trunc2", "memtight", "live", "live_trunc", "cat2_badpad", "cat1_trailpad",
+            "memstop", "memstop_noraise", "memstop_err", "live_memstop"]
 ALL_MC = ["ok", "err2", "err1", "badhdr", "badhdr2", "direct", "direrr", "empty", "trunc", "trunc2", "badtail",
-          "spur", "timeout", "ff_err", "ff_trunc", "memtight", "live", "live_trunc", "cat2", "cat2_pad0", "cat2_badpad", "cat1_trailpad", "reinit", "reinit_err"]
+          "spur", "timeout", "ff_err", "ff_trunc", "memtight", "live", "live_trunc", "cat2", "cat2_pad0", "cat2_badpad", "cat1_trailpad", "reinit", "reinit_err",
+          "memstop", "memstop_noraise", "memstop_err", "live_memstop"]
 
 def model_check(ctx):
     names = QUICK_MC if ctx.quick else ALL_MC
@@ -106,11 +108,37 @@ def make_files(ctx):
     ld = mtlib.layout(direct); b = ld["blocks"][1]
     x = bytearray(direct); x[b["off"] + b["bh"] + 300] ^= 0x40; b["corrupt"] = True
     files.append(("direct_corrupt_b2", bytes(x), ld))
+    # Blocks whose filter chains need different amounts of memory (LZMA2 dictionary 256 KiB / 4 MiB / 256 KiB), with
+    # size fields: threaded encoder, FULL_BARRIER between the Blocks, lzma_filters_update() for the next one.
+    # Used with memlimit_stop between the two needs: Block 2 is refused (LZMA_MEMLIMIT_ERROR) while Block 1's output
+    # may still be queued; lzma_memlimit_set() then lets decoding continue.
+    dicts = [1 << 18, 1 << 22, 1 << 18]
+    fl = [coders.lzma2_filters(0, dict_size=d) for d in dicts]
+    mt = lz.Mt(); mt.threads = 1; mt.block_size = 1 << 20; mt.check = lz.CHECK_CRC32
+    mt.filters = C.cast(fl[0], C.POINTER(lz.Filter))
+    c = lz.Coder(); assert c.init("lzma_stream_encoder_mt", C.byref(mt)) == lz.OK
+    out = lz.Buf(1 << 20); s = c.strm; s.next_out = out.addr; s.avail_out = out.size
+    pos = 0
+    for i, (piece, act) in enumerate(((30000, lz.FULL_BARRIER), (25000, lz.FULL_BARRIER), (25000, lz.FINISH))):
+        if i:
+            assert lz.L().lzma_filters_update(C.byref(s), fl[i]) == lz.OK
+        s.next_in = ib.addr + pos; s.avail_in = piece; pos += piece
+        while True:
+            r = c.code_raw(act)
+            if r != lz.OK:
+                break
+        assert r == lz.STREAM_END
+    c.end()
+    mix = out.data(out.size - s.avail_out)
+    lm = mtlib.layout(mix)
+    for b, f in zip(lm["blocks"], fl):
+        b["fmem"] = int(lz.L().lzma_raw_decoder_memusage(f))
+    files.append(("memmix3", mix, lm))
     return files
 
-def st_decode(data, flags=0):
+def st_decode(data, flags=0, memlimit=None):
     from harness.pydrv import lz
-    c = lz.Coder(); assert c.init("lzma_stream_decoder", lz.UINT64_MAX, flags) == lz.OK
+    c = lz.Coder(); assert c.init("lzma_stream_decoder", lz.UINT64_MAX if memlimit is None else memlimit, flags) == lz.OK
     r = lz.run_coder(c, data, out_cap=1 << 20); c.end()
     return r["ret"], r["out"]
 
@@ -126,7 +154,8 @@ def run(ctx):
     fmem = lz.L().lzma_raw_decoder_memusage(coders.lzma2_filters(0))     # every generated Block uses LZMA2 preset 0
     for _, _, lay in files:
         for b in lay["blocks"]:
-            b["mem"] = int(fmem + b["insz"])
+            b.setdefault("fmem", int(fmem))
+            b["mem"] = int(b["fmem"] + b["insz"])
     wd = ctx.workdir
     nseeds = 3 if ctx.quick else 14
     groups = []     # (file, nw, timeout, failfast) -> list of runs
@@ -143,21 +172,32 @@ def run(ctx):
             settings.append((2, 0, lz.FAIL_FAST))
         # memlimit_threading: room for exactly one Block at a time / not even one (forces direct mode)
         sized = [b for b in lay["blocks"] if b["hdr"] != "direct"]
-        memsets = [(nw, to, fl, None) for (nw, to, fl) in settings]
+        memsets = [(nw, to, fl, None, None) for (nw, to, fl) in settings]
         if sized and (fi % 2 == 0 or not ctx.quick):
             need = max(b["mem"] + b["outsz"] + outovh for b in sized)
-            memsets.append((3, 0, 0, need + 1000))
-            memsets.append((2, 0, 0, need - 1))
+            memsets.append((3, 0, 0, need + 1000, None))
+            memsets.append((2, 0, 0, need - 1, None))
+        if name == "memmix3":
+            # memlimit_stop: between the needs of the small and the big chain (Block 1 threaded, Block 2 refused, then
+            # decoded in direct mode because memlimit_threading stays at the old limit) / below every need (every
+            # Block refused once; everything in direct mode)
+            fm = sorted(set(b["fmem"] for b in lay["blocks"]))
+            memsets += [(2, 0, 0, None, 2 << 20), (3, 0, 0, None, fm[0] - 1), (2, 1, 0, None, fm[0] + 70000)]
         settings = memsets
-        for (nw, to, fl, memt) in settings:
+        for (nw, to, fl, memt, memstop) in settings:
             fl = fl | cflag
-            g = dict(file=name, path=path, lay=lay, nw=nw, timeout=to, flags=fl, runs=[], st=(st_ret, st_out), memt=memt)
+            g = dict(file=name, path=path, lay=lay, nw=nw, timeout=to, flags=fl, runs=[], st=(st_ret, st_out), memt=memt,
+                     memstop=memstop)
+            if memstop:
+                g["st_limited"] = st_decode(data, cflag, memstop)
             groups.append(g)
             for k in range(nseeds):
                 seed = ctx.seed * 1000 + k + 17 * len(jobs)
                 endafter = -1 if k % 3 != 2 else ctx.rng.randint(1, 6)
                 p = dict(threads=nw, timeout=to, flags=fl, seed=seed, perturb=[0, 25, 60][k % 3],
                          **({"memthr": memt} if memt else {}),
+                         # the last seed of a memlimit_stop group does not raise the limit: final LZMA_MEMLIMIT_ERROR
+                         **({"memstop": memstop, "raise": 0 if k == nseeds - 1 else 1} if memstop else {}),
                          endafter=endafter, slicing=0 if (k == 0) else 1,
                          cpus=[0, 2, 1][k % 3] if not ctx.quick else 0)
                 if k == 0:
@@ -178,8 +218,9 @@ def run(ctx):
         return j, res, out
     with cf.ThreadPoolExecutor(8) as ex:
         results = list(ex.map(exec_job, jobs))
+    refused = [0, 0]
     for (g, params), res, out in results:
-        label = "%s:T%d:to%d:fl%d:m%s:seed%d" % (g["file"], g["nw"], g["timeout"], g["flags"], g["memt"], params["seed"])
+        label = "%s:T%d:to%d:fl%d:m%s:s%s:seed%d" % (g["file"], g["nw"], g["timeout"], g["flags"], g["memt"], g["memstop"], params["seed"])
         ctx.case(key=label)
         for key, rep in mtlib.tsan_keys(res["stderr"]):
             ctx.violation(key, rep, dict(kind="run", params=params, file=g["file"]))
@@ -195,9 +236,12 @@ def run(ctx):
         init_ev, evs = mtlib.fold(res["events"])
         if any(e["e"] in ("OVERFLOW", "TOOMANYCALLS") for e in evs):
             raise MachineryError("driver event buffer overflow / too many calls: " + label)
+        if g["memstop"]:
+            refused[0] += sum(1 for e in evs if e["e"] == "Ret" and e["a"] == lz.MEMLIMIT_ERROR)
+            refused[1] += sum(1 for e in evs if e["e"] == "MemlimitSet")
         g["runs"].append((label, [{"e": "Reset"}] + [e for e in evs if not (e["e"] == "Reinited" and e["a"] != 0)]))
         # final observation against the real single-threaded decoder
-        st_ret, st_out = g["st"]
+        st_ret, st_out = g["st"] if params.get("raise", 1) else g["st_limited"]
         rets = [e for e in evs if e["e"] == "Ret"]
         last = rets[-1]["a"] if rets else None
         if params["endafter"] < 0:
@@ -215,6 +259,9 @@ def run(ctx):
         elif not st_out.startswith(out):
             ctx.violation("stequiv_prefix:%s" % g["file"], "output delivered before lzma_end is not a prefix (%s)" % label,
                           dict(kind="run", params=params, file=g["file"]))
+    if not refused[0] or not refused[1]:
+        raise MachineryError("no run was refused with LZMA_MEMLIMIT_ERROR / none raised the limit (vacuous memlimit_stop groups)")
+    ctx.log("memlimit_stop: %d LZMA_MEMLIMIT_ERROR returns, %d lzma_memlimit_set calls" % tuple(refused))
     # trace validation: one TLC run per (file, threads, timeout, failfast)
     def validate_group(g):
         if not g["runs"]:
@@ -224,13 +271,14 @@ def run(ctx):
                        filelen=lay["filelen"], timeout=bool(g["timeout"]), failfast=bool(g["flags"] & 32),
                        copies=lay.get("copies", 1), pad=lay.get("pad", 0), concat=bool(lay.get("concat")),
                        memt=int(g["memt"]) if g["memt"] else 2000000000, outovh=outovh,
-                       blocks=[{k: b[k] for k in ("hdr", "bh", "insz", "outsz", "errAt", "mem", "corrupt")} for b in lay["blocks"]])
+                       memstop=int(g["memstop"]) if g["memstop"] else 2000000000,
+                       blocks=[{k: b[k] for k in ("hdr", "bh", "insz", "outsz", "errAt", "mem", "fmem", "corrupt")} for b in lay["blocks"]])
         sub = type(ctx)(ctx.pid, ctx.tier, ctx.seed)      # private accounting, merged below
         sub.workdir = os.path.join(ctx.workdir, "g%d" % id(g)); os.makedirs(sub.workdir, exist_ok=True)
         sub.findings = ctx.findings
         rej = tracev.validate(sub, "TraceMtDecoder", g["runs"],
                               lambda label, e, i: "trace:%s:%s" % (label.split(":")[0], e.get("e")),
-                              prelude=[cfgline], name="TraceMtDecoder.%s.%d.%d.%d.%s" % (g["file"], g["nw"], g["timeout"], g["flags"], g["memt"]),
+                              prelude=[cfgline], name="TraceMtDecoder.%s.%d.%d.%d.%s.%s" % (g["file"], g["nw"], g["timeout"], g["flags"], g["memt"], g["memstop"]),
                               maxl=True)
         return g, sub
     with cf.ThreadPoolExecutor(5) as ex:
